@@ -8,7 +8,7 @@ for f in "$@"; do
   (cd $S/repo && patch -s -p1 < "$(realpath "$OLDPWD/$f" 2>/dev/null || echo "$f")") || { echo "$f: does not apply"; continue; }
   st=$(BEI_REPO=$S/repo python3 tools/codegen.py | grep -v " translated" | tr '\n' ';')
   res=""
-  for u in Value Events Timer Conditions Tracker ActionData Modifiers Refs Merge; do
+  for u in Value Events Timer Conditions Tracker ActionData Modifiers Refs Merge Loops; do
     if grep -q '"status": "translated"' <(python3 -c "import json;print(json.dumps(json.load(open('lean/BEI/Gen/Code/status.json'))['$u']))"); then
       if (cd lean && lake build BEI.Gen.Code.$u >/dev/null 2>&1); then (cd lean && lake build BEI.Bridge.$u >/dev/null 2>&1) || res="$res BROKEN:$u"; else res="$res noelab:$u"; fi
     fi
